@@ -35,6 +35,15 @@ type c13H struct {
 	flag   bool
 }
 
+// unexported fields whose names start with a character that has no case (underscore, a CJK ideograph), tagged with
+// rules whose functions call Interface(): never validated, so never a panic ("not lower case" is not "exported")
+type c13C struct {
+	A     string   `valid:"required"`
+	_kind int      `valid:"in=(1/2)"`
+	数量    []string `valid:"unique"`
+	_s    string   `valid:"eq=9"`
+}
+
 // a map whose key type is a NAMED string type (reflect.MapOf cannot build one at run time)
 type c13K string
 
@@ -101,6 +110,7 @@ func hostileValue(r *gal.Rng) (interface{}, string) {
 		{&c13G{S1: []string{"a"}, S2: []string{"b"}, M1: map[string]int{"a": 1}, M2: map[string]int{"a": 2}, E1: c13T{A: "x"}, E2: c13T{A: "y"}, I1: map[string]int{"a": 1}, I2: []int{1}}, "groups-uncomparable-differ"},
 		{map[string][]string{"a": {"x"}, "b": {"x"}}, "map-of-slices"},
 		{&c13H{A: "x", hidden: 5, secret: []string{"a", "a"}, flag: true}, "unexported-with-values"},
+		{&c13C{A: "x", _kind: 5, 数量: []string{"a", "a"}, _s: "abc"}, "caseless-unexported-with-values"}, {[]c13C{{A: "y", _kind: 7}}, "slice-caseless-unexported"},
 		{map[c13K]string{"a": "abc", "b": ""}, "map-named-key"}, {[]map[c13K]int{{"a": 3}}, "slice-map-named-key"}, {&map[c13K]string{"a": "x"}, "ptr-map-named-key"},
 		{"http://h/p?a=%zz", "bad-escape-url"}, {"http://h/p?a=1&a=2&=3&b", "odd-url"}, {"?", "qmark"}, {"", "empty-string"}, {"http://h/p?a=%", "trunc-escape"},
 	}
